@@ -538,7 +538,7 @@ FLT_POOL = [0.0, 0.5, 1.0, 1.5, 2.0, -0.5, 0.25, 3.0, 10.0, 0.1, 1e10, 1e100, 2.
 class ProgramGen:
     def __init__(self, rng, profile=None):
         self.rng = rng
-        self.pf = dict(floats=True, meta=True, errors=True, goto=True, strings=True, coerce=True, level2=True, stage4=False)
+        self.pf = dict(floats=True, meta=True, errors=True, goto=True, strings=True, coerce=True, level2=True, stage4=True)
         if profile:
             self.pf.update(profile)
         self.scopes = [[]]
